@@ -78,7 +78,7 @@ def check(ctx, cases):
                      "pp": o.get("pp") or [], "found": o.get("found") or [], "tracts": o.get("tracts") or [],
                      "canon_pp": bool(o.get("canon_pp")), "warned": warned, "same_tracts": bool(o.get("same_tracts")),
                      "exc": o.get("exc", "none")})
-        ctx.nontrivial.add((c["args"]["text"], a["src"], a["dflt"]["ns"], a["dflt"]["ew"], a["ocr"]))
+        ctx.nontrivial.add((c["args"]["text"], a["src"]["ns"], a["src"]["ew"], a["dflt"]["ns"], a["dflt"]["ew"], a["ocr"]))
     fails, _ = ctx.validate("TwpRgeLexTrace", recs, CONSTS, invariants=("Verdict",))
     for cid, clause, *_ in fails:
         o = obs[cid]
@@ -100,7 +100,7 @@ def run(ctx):
                   count=False)
     cases = []
     singles = res.cases
-    keep = 1.0 if thorough else 0.3
+    keep = 0.5 if thorough else 0.08
     for i, c in enumerate(singles):
         if ctx.rng.random() > keep:
             continue
@@ -122,7 +122,7 @@ def run(ctx):
                                for f in (a["forms"][0], b["forms"][0]))
         dn = {"N": "N", "S": "S"}[a["dflt"]["ns"]]
         d = {"ns": dn, "ew": a["dflt"]["ew"]}
-        eff = d if a["src"] != "unset" else {"ns": "N", "ew": "W"}
+        eff = {"ns": d["ns"] if a["src"]["ns"] != "unset" else "N", "ew": d["ew"] if a["src"]["ew"] != "unset" else "W"}
         forms = [a["forms"][0], b["forms"][0]]
         expect = [{"t": f["t"], "r": f["r"], "ns": f["ns"] if f["ns"] != "-" else eff["ns"],
                    "ew": f["ew"] if f["ew"] != "-" else eff["ew"]} for f in forms]
@@ -133,7 +133,7 @@ def run(ctx):
     ctx.exhaustive = thorough
     check(ctx, cases)
     ctx.rule = ("written forms = every (template class x numbers {1,7,154} x {2,12,97} x each direction present N/S/E/W or absent) "
-                "x defaults x source (config / parse keyword / MasterConfig / unset) x ocr_scrub of spec/TwpRgeLex.tla (%d%%), "
+                "x defaults x source per axis (config / parse keyword / MasterConfig / unset, independently for N/S and E/W) x ocr_scrub of spec/TwpRgeLex.tla (%d%%), "
                 "each rendered with a random concrete spelling, plus pairs of Twp/Rges in one description (40%% denoting the same "
                 "Twp/Rge, one of them with a missing direction); non-trivial = distinct (text, source, defaults, ocr)"
                 % int(keep * 100))
